@@ -92,12 +92,18 @@ class Management:
         if address in self._connections:
             raise ManagementConnectionError(f"Connection to {address} already exists.")
         p2p_connection = P2PConnection(self.xknx, address, rate_limit)
+        # register before connecting - the device may already answer (eg. refuse with
+        # T_Disconnect) while the connect telegram is still waiting for its confirmation
+        self._connections[address] = p2p_connection
         try:
             await p2p_connection.connect()
         except ManagementConnectionError as exc:
+            del self._connections[address]
             logger.error("Establishing connection to %s failed: %s", address, exc)
             raise
-        self._connections[address] = p2p_connection
+        except BaseException:  # eg. cancelled
+            del self._connections[address]
+            raise
 
         def remove_connection_hook() -> None:
             """Remove connection from management."""
@@ -238,17 +244,20 @@ class P2PConnection:
             source_address=self.xknx.current_address,
             tpci=TConnect(),
         )
+        # set before sending - a T_Disconnect of the device received meanwhile resets it
+        self._connected = True
         try:
             await self.xknx.cemi_handler.send_telegram(connect)
         except ConfirmationError as exc:
+            self._connected = False
             self._response_waiter.cancel()
             raise ManagementConnectionError(
                 f"Connection to {self.address} failed: {exc}"
             ) from exc
         except CommunicationError as exc:
+            self._connected = False
             self._response_waiter.cancel()
             raise ManagementConnectionError("Error while sending Telegram") from exc
-        self._connected = True
 
     async def disconnect(self) -> None:
         """Disconnect from the KNX device. Sends T_Disconnect-PDU (= A_Disconnect, see connect())."""
